@@ -49,14 +49,17 @@ class Ctx:
         return False
 
 
-def draw_sched_config(rng: random.Random, line_ok=True):
-    """swarm: scheduling strategy and pre-emption rates differ per run"""
+def draw_sched_config(rng: random.Random, line_ok=True, stall_ok=False):
+    """swarm: scheduling strategy and pre-emption rates differ per run. stall_ok: the check's oracles do not depend on
+    how fast a thread proceeds, so threads may be stalled for 1-100 virtual ms at scheduling points"""
     strategy = rng.choice(['random', 'random', 'random', 'pct'])
     cfg = {'seed': rng.getrandbits(48), 'strategy': strategy,
            'p_switch': rng.choice([0.02, 0.1, 0.3, 0.6]),
            'pct_depth': rng.choice([1, 2, 3]),
            'pct_horizon': rng.choice([500, 3000, 20000]),
            'line_p': rng.choice([0.0, 0.0, 0.002, 0.02]) if line_ok else 0.0}
+    if stall_ok:
+        cfg['p_stall'] = rng.choice([0.0, 0.0, 0.0005, 0.003])
     return cfg
 
 
@@ -87,6 +90,7 @@ class CheckBase:
                         pct_horizon=cfg.get('pct_horizon', 3000), max_steps=self.max_steps,
                         max_virtual=self.max_virtual, log_path=os.environ.get('SIMLOG'))
         s.on_abort = on_abort
+        s.p_stall = cfg.get('p_stall', 0.0)
         patches.begin_run(cfg['seed'])
         net = N.reset(cfg['seed'] ^ 0x77)
         ctx = Ctx(self.id, plan, s)
@@ -112,6 +116,8 @@ class CheckBase:
         if err is not None:
             return {'harness_error': 'EXCEPTION', 'detail': err[-6000:], 'ring': s.ring[-40:]}
         fc = dict(net.fault_counts)
+        if s.stalls:
+            fc['thread_stall'] = s.stalls
         nontrivial = ctx.nontrivial or s.preemptions > 0 or any(fc.values())
         return {'violations': ctx.violations, 'known': ctx.known, 'digest': s.digest(), 'steps': s.steps,
                 'virtual_s': round(s.now, 6), 'fault_counts': fc, 'probes': ctx.probes,
